@@ -162,6 +162,46 @@ def shard(ctx):
     rng = ctx.rng("c04")
     o = gen.Opts(**OPTS)
     o.unary_w = 0.3
+    # ---- keys that differ only in spelling convention (BucketName / bucket_name / bucketName ...): the evaluator's fallback from the written
+    #      key to a converted spelling must pick the same entry whatever was looked up before (lines, rules, earlier evaluations)
+    if ctx.mine(1):
+        import itertools as _it
+        cvdoc = {"cv": {"BucketName": "x1", "bucket_name": "x2", "retention_days": 7, "RetentionDays": 9, "log-group": 1, "LogGroup": 2, "plain": 0,
+                        # keys that only ONE converter reaches from the spelling used in the rules
+                        "only_snake": 1, "only-kebab": 1, "Only Title": 1, "Only-Train": 1, "OnlyPascal": 1}}
+        cvd = json.dumps(cvdoc)
+        clauses = ['cv.bucketName == "x1"', 'cv.bucketName == "x2"', "cv.retentionDays == 7", "cv.retentionDays == 9", "cv.logGroup == 1", "cv.logGroup == 2",
+                   "cv.log_group == 1", "cv.\"Bucket-Name\" exists", "cv.plain == 0", "cv.Retention_Days == 7",
+                   "cv.onlySnake == 1", "cv.onlyKebab == 1", "cv.onlyTitle == 1", "cv.onlyTrain == 1", "cv.onlyPascal == 1"]
+        singles = ["rule n%d {\n    %s\n}\n" % (i, c) for i, c in enumerate(clauses)]
+        multi = [clauses[10], clauses[0], clauses[11], clauses[4]]
+        base_text = "".join(singles) + "rule m {\n" + "".join("    %s\n" % c for c in multi) + "}\n"
+        base, _ = status_map(ctx, base_text, cvd)
+        if not isinstance(base, dict):
+            ctx.inconclusive("case-variant-base-" + str(base))
+        else:
+            rngc = ctx.rng("cv")
+            chosen = [tuple(reversed(range(len(singles))))]
+            for _ in range(25 if ctx.quick else 400):
+                pm = list(range(len(singles)))
+                rngc.shuffle(pm)
+                chosen.append(tuple(pm))
+            variants_cv = [("permute-rules", "".join(singles[i] for i in pm) + "rule m {\n" + "".join("    %s\n" % c for c in multi) + "}\n") for pm in chosen]
+            variants_cv += [("permute-lines", "".join(singles) + "rule m {\n" + "".join("    %s\n" % multi[i] for i in pm) + "}\n") for pm in _it.permutations(range(len(multi)))]
+            variants_cv += [("rules-after", "rule m {\n" + "".join("    %s\n" % c for c in multi) + "}\n" + "".join(singles)), ("same-again", base_text)]
+            for label, text in variants_cv:
+                st, _ = status_map(ctx, text, cvd)
+                ctx.res.cases += 1
+                ctx.res.counts["case_variant_key_variants"] += 1
+                if not isinstance(st, dict):
+                    ctx.inconclusive("case-variant-variant-" + str(st))
+                    continue
+                why = compare(base, st, ("same",))
+                if why:
+                    ctx.violation("order:case-variant-keys:%s" % label, "%s\n--- base\n%s--- variant\n%s--- doc %s" % (why, base_text, text, cvd),
+                                  {"base": base_text, "variant": text, "data": cvd, "rel": ["same"]})
+                else:
+                    ctx.res.distinct.add(("case-variant-keys", label))
     nbase = 90 if ctx.quick else 2600
     vorders = set()
     rpatterns = set()
